@@ -282,6 +282,7 @@ def run(model, rep, tier):
                           (f"after `{L} = {src(c)}` the function can leave through `{src(leaks[0].ast)[:50]}` (line {leaks[0].lineno}) without entering `with {L}`: the zone's write slot stays taken and every later writer waits for ever"
                            if leaks and leaks[0].ast is not None else f"`{L}` is never entered by `with` on some path"), stmt="writer-local " + L)
     rep.floor("R-12.7", n_w, 5)
+    rep.share(model, "C07", {"R-07.8"}, "R-12.9", "committed rdatasets are copied into the version: a writer that mutates the rdataset object it passed in must not change what readers see")
     rep.share(model, "C19", {"R-19.1"}, "R-12.9", "btreezone.WritableVersion clones version.nodes and version.delegations; readers keep using the originals while the writer runs")
     rep.share(model, "C10", {"R-10.4", "R-10.5"}, "R-12.8", "versioned.Zone._end_write (slot release and wake-up) runs only from Transaction._end, reached from __exit__/commit/rollback")
     rep.meta["explanation"] = (
